@@ -94,7 +94,10 @@ func classifyOutcome(o outcome) (string, string) {
 
 var hostileValues = []string{"", "0", "-1", "-1px", "1e309", "1e309px", "NaN", "NaNpx", "Inf", "-Inf", "Infpx", "0x1p4", "1_0", "９px",
 	strings.Repeat("9", 400), strings.Repeat("9", 400) + "px", "px", "%", "10px 20px 30px", "1px 2px 3px 4px 5px", "\t5px", "5 px", "50%", "150%", "-50%",
-	"1e3%", "0%", "0px", "0.0001px", "99999999999px", "\"", "a\"b", "<", "full-width", "true", "false", "-0", "+5px", ".5px", "5.px", "1e-400px", "100%%", "% 5", "auto"}
+	"1e3%", "0%", "0px", "0.0001px", "99999999999px", "\"", "a\"b", "<", "full-width", "true", "false", "-0", "+5px", ".5px", "5.px", "1e-400px", "100%%", "% 5", "auto",
+	// placeholders and format directives: values that templates, formatters and regexp replacements give a meaning to
+	"[[URL]]", "https://x/?next=[[URL]]", "{{url}}", "%s", "%d%n%v", "%!s(MISSING)", "$1", "${1}x", "\\1", "{0}", "<%= x %>", "[[", "]]", "[[URL]][[URL]]",
+	"10px 10px ", " 10px", "10px  20px", "10px\t20px", "10px,20px", "calc(100% - 10px)", "var(--x)", "10PX", "10Px 5pX"}
 
 // legalContext returns a document with the element `tag attrs` placed where MJML allows it.
 func legalContext(tag, attrs, head string) string {
